@@ -20,6 +20,7 @@ THEOREMS = {
     "SpecKitV.Props.SchedGen": ["gen_ltf_round_eq", "gen_ltf_walk_eq_model", "gen_new_walk_eq_model"],
     "SpecKitV.Props.VecGen": ["Arr.memo_eq", "Np.logspace_get", "Np.searchsortedLeft_eq", "gen_vec_walk_eq_model", "gen_vec_walk_eq_plan"],
     "SpecKitV.Props.StartsGen": ["gen_ltf_starts_eq_model", "gen_ltf_starts_safe"],
+    "SpecKitV.Props.PostGen": ["gen_vec_post_eq_model", "gen_new_post_eq_vec_post", "gen_post_starts_safe"],
     "SpecKitV.Props.Utils": ["gen_round_half_up_eq_model", "gen_round_half_up_eq_floor"],
 }
 CONTRACTS: List[str] = []
